@@ -28,7 +28,7 @@ use dmntk_feel::{FeelNumber, Name, Scope};
 use dmntk_feel_parser::VerifTokenType as TT;
 use serde_json::json;
 
-const WORDS: [&str; 14] = ["a", "b", "c", "ab", "abc", "x1", "é", "żółw", "日本", "Δx", "n_1", "?q", "Z", "ba"];
+const WORDS: [&str; 17] = ["a", "b", "c", "ab", "abc", "x1", "é", "żółw", "日本", "Δx", "n_1", "?q", "Z", "ba", "date", "time", "duration"];
 /// words that may only follow another word (they start with a digit / a combining part char)
 const LATER_WORDS: [&str; 3] = ["2", "10", "·k"];
 const SYMBOLS: [&str; 6] = [".", "/", "-", "'", "+", "*"];
@@ -587,7 +587,7 @@ pub fn run(cfg: &Cfg) -> Report {
     occurrences: Vec<(usize, usize)>,
     locals: Vec<Vec<String>>,
     /// per occurrence: the identifier that replaces it when it is a shadowing local
-    forced: Vec<Option<String>>,
+    forced: Vec<Option<(String, String)>>,
     family: &'static str,
     impl_value: String,
     nontrivial: bool,
@@ -677,7 +677,7 @@ pub fn run(cfg: &Cfg) -> Report {
       locals.push(LOCALS[(l0 + 1 + rng.below(LOCALS.len() as u64 - 1) as usize) % LOCALS.len()].iter().map(|s| s.to_string()).collect());
       let mut text = String::new();
       let mut occurrences = vec![];
-      let mut forced: Vec<Option<String>> = vec![];
+      let mut forced: Vec<Option<(String, String)>> = vec![];
       let mut multi = false;
       for piece in &tpl {
         match piece {
@@ -694,7 +694,7 @@ pub fn run(cfg: &Cfg) -> Report {
             multi |= chosen[*i].parts.len() > 1;
             text.push_str(&render(&mut rng, &chosen[*i].parts));
             occurrences.push((start, text.chars().count()));
-            forced.push(Some(format!("w{}", i)));
+            forced.push(Some((format!("w{}", i), chosen[*i].name.to_string())));
           }
           C => {
             let cb = ctx_bound.as_ref().unwrap();
@@ -869,8 +869,9 @@ pub fn run(cfg: &Cfg) -> Report {
         None => ok = false,
         Some((name, len)) => {
           expected_text.extend(chars[cursor..*start].iter());
-          if let Some(id) = &c.forced[oi] {
-            // a shadowing local: same text as a bound name, replaced by a fresh identifier
+          if let Some((id, _)) = c.forced[oi].as_ref().filter(|(_, local)| *local == name) {
+            // a shadowing local: same text as a bound name, replaced by a fresh identifier (only when the
+            // occurrence resolves to that name: a longer bound name that starts here wins over the local)
             expected_text.push_str(id);
           } else if let Some(b) = c.all_bound.iter().find(|b| b.name.to_string() == name) {
             expected_text.push_str(&b.literal);
